@@ -56,6 +56,7 @@ pub static INFO: PropInfo = PropInfo {
         ("history_pressure_runs", 5),
         ("late_response_after_expiry", 20),
         ("late_response_after_expiry_superseding_token", 5),
+        ("stale_response_after_session_ended", 20),
     ],
     engines_quick: &["e1"],
     engines_thorough: &["e1"],
@@ -144,6 +145,9 @@ pub fn one_run(ctx: &Ctx, out: &mut Outcome, run_seed: u64) {
     }
     if ctx.replay_mode.as_deref() == Some("late-response") || (ctx.replay_mode.is_none() && r.below(30) == 0) {
         return late_response_run(ctx, out, run_seed, &mut r);
+    }
+    if ctx.replay_mode.as_deref() == Some("stale-response") || (ctx.replay_mode.is_none() && r.below(30) == 0) {
+        return stale_response_run(ctx, out, run_seed, &mut r);
     }
     let mut budget = r.urange(120, 220);
     let mut episodes = 0;
@@ -792,5 +796,131 @@ fn late_response_run(ctx: &Ctx, out: &mut Outcome, run_seed: u64, r: &mut Rng) {
         if !matches!(res, SResult::Connected { .. }) {
             out.count("late_response_control_not_connected");
         }
+    }
+}
+
+/// A response is consumed by the session it establishes. An address completes a handshake (request, challenge, response),
+/// the session ends within the life time of the token (the server application disconnects it, the client's Disconnect
+/// datagram arrives, or it times out), and then the recorded response datagram - genuine, correctly sealed, echoing
+/// the genuine challenge - arrives again from that address (late duplicate, or a replay by whoever saw it). The
+/// address has no completed handshake any more and no half-open one either: no answer, no session, and nothing is
+/// sent to it at the following updates. Controls: the same datagram replayed while the session is still up (ignored
+/// as well), and a fresh request afterwards is challenged again.
+fn stale_response_run(ctx: &Ctx, out: &mut Outcome, run_seed: u64, r: &mut Rng) {
+    use super::netproto_util::{challenge_of, response_bytes, sealed};
+    let maxc = r.urange(1, 3);
+    let mut srv = new_srv(r, maxc, 1, false);
+    let protocol = srv.protocol_id;
+    let a = client_addr(r, 78);
+    let mut hist: Vec<Value> = Vec::new();
+    let fail = |out: &mut Outcome, sig: &str, detail: String, hist: &Vec<Value>| {
+        out.violation(
+            ctx,
+            sig,
+            "datagrams that carry neither a valid connect token nor a valid response get no answer; nothing goes to an address without a completed handshake unasked",
+            detail,
+            json!({"property": "C19", "engine": ctx.engine, "run_seed": format!("{:#x}", run_seed), "mode": "stale-response", "steps": hist}),
+        );
+    };
+    let tau = *r.pick(&[1i32, 2, 5]);
+    let id = 600 + r.below(50);
+    let m = mint_for(r, &srv, id, tau, 600);
+    let res = srv.process(a, &request_of(&m));
+    let Some(blob) = res.outgoing().and_then(|(_, rep)| challenge_of(rep, protocol, &m.private.server_to_client_key)) else {
+        out.count("stale_response_runs_void");
+        out.eval(mix(&[0x57A1, run_seed]), false);
+        return;
+    };
+    let resp = response_bytes(protocol, 1, &m.private.client_to_server_key, &blob);
+    let res = srv.process(a, &resp);
+    hist.push(json!({"step": "request, challenge, response", "result": res.kind()}));
+    if !matches!(res, SResult::Connected { .. }) {
+        out.count("stale_response_runs_void");
+        out.eval(mix(&[0x57A1, run_seed]), false);
+        return;
+    }
+    // control: the duplicate of the response while the session is up
+    if r.chance(1, 2) {
+        let res = srv.process(a, &resp);
+        hist.push(json!({"step": "response duplicated while the session is up", "result": res.kind()}));
+        out.count("stale_response_duplicate_while_connected");
+    }
+    srv.update(Duration::from_millis(r.range(0, 400)));
+    let how = r.below(3);
+    let ended = match how {
+        0 => {
+            let res = srv.disconnect(id);
+            hist.push(json!({"step": "server.disconnect(id)", "result": res.kind()}));
+            matches!(res, SResult::Disconnected { .. })
+        }
+        1 => {
+            let d = sealed(&OPacket::Disconnect, protocol, 2, &m.private.client_to_server_key);
+            let res = srv.process(a, &d);
+            hist.push(json!({"step": "Disconnect datagram of the client", "result": res.kind()}));
+            matches!(res, SResult::Disconnected { .. })
+        }
+        _ => {
+            let mut gone = false;
+            for _ in 0..(tau as u64 * 10 + 20) {
+                srv.update(Duration::from_millis(100));
+                if matches!(srv.update_client(id), SResult::Disconnected { .. }) {
+                    gone = true;
+                    break;
+                }
+            }
+            hist.push(json!({"step": "silence until the session timed out", "timed_out": gone, "server_now_ms": srv.now.as_millis() as u64}));
+            gone
+        }
+    };
+    if !ended || !srv.s.clients_id().is_empty() {
+        out.count("stale_response_runs_void");
+        out.eval(mix(&[0x57A2, run_seed, how]), false);
+        return;
+    }
+    if r.chance(1, 2) {
+        srv.update(Duration::from_millis(r.range(1, 3000)));
+    }
+    let copies = r.urange(1, 3);
+    for c in 0..copies {
+        let res = srv.process(a, &resp);
+        hist.push(json!({"step": format!("recorded response replayed from the same address (copy {})", c + 1), "result": res.kind()}));
+        out.count("in_scope_datagrams");
+        out.count("stale_response_after_session_ended");
+        let back = !srv.s.clients_id().is_empty();
+        if res.outgoing().is_some() || matches!(res, SResult::Connected { .. }) || back {
+            let (dst, len) = res.outgoing().map(|(d, b)| (d.to_string(), b.len())).unwrap_or(("-".into(), 0));
+            return fail(
+                out,
+                "C19/reply-to-invalid/replayed-response-after-session-ended",
+                format!("the session of {} ended ({}); its recorded response replayed from {} was answered with {} bytes to {} ({}), clients now {:?}", id, ["server.disconnect", "client Disconnect datagram", "time-out"][how as usize], a, len, dst, res.kind(), srv.s.clients_id()),
+                &hist,
+            );
+        }
+        // nothing is owed to that address at the next updates either
+        srv.update(Duration::from_millis(r.range(100, 600)));
+        let res = srv.update_client(id);
+        if res.outgoing().is_some() {
+            return fail(
+                out,
+                "C19/unsolicited-datagram/after-replayed-response",
+                format!("after the replayed response of an ended session the server sends {} to that address at its next update", res.kind()),
+                &hist,
+            );
+        }
+    }
+    out.eval(mix(&[0x57A3, run_seed, how, copies as u64]), true);
+    out.count(&format!("noreply.replayed-response-after-{}", ["server-disconnect", "client-disconnect", "time-out"][how as usize]));
+    // control: the address can start over with a fresh request
+    if r.chance(1, 2) {
+        let m2 = mint_for(r, &srv, id, tau, 600);
+        let res = srv.process(a, &request_of(&m2));
+        if res.outgoing().is_some() {
+            out.count("stale_response_control_fresh_request_challenged");
+        } else {
+            out.count("stale_response_control_fresh_request_not_answered");
+        }
+    }
+    if out.samples.len() < out.max_samples {
+        out.sample(json!({"mode": "stale-response", "run_seed": format!("{:#x}", run_seed), "ended_by": how, "copies": copies}));
     }
 }
